@@ -354,6 +354,11 @@ impl Ctx {
         for h in case.nontrivial.drain(..) {
             self.distinct.insert(h);
         }
+        // every worker keeps at least the identity of the first case it executed, so that the evidence
+        // never ends up without a sample when the per-workload samples happen to fall on a crashed case
+        if self.samples.is_empty() && case.samples.is_empty() {
+            case.samples.push(json!({"workload": "first executed case", "case": id}));
+        }
         for s in case.samples.drain(..) {
             let w = s.get("workload").cloned().unwrap_or(Value::Null);
             let same = self.samples.iter().filter(|x| x.get("workload").cloned().unwrap_or(Value::Null) == w).count();
